@@ -789,9 +789,10 @@ struct EnvEngine : Engine {
 					std::string key = e.ref_slot + "|" + p.par["ptext" + std::to_string(idx)] + "|" + p.par["pfmt" + std::to_string(idx)];
 					auto mt = refmemo.find(key);
 					std::string ref;
-					if (mt != refmemo.end())
+					if (mt != refmemo.end()) {
 						ref = mt->second;
-					else {
+						st.mix_value(0, ref);
+					} else {
 						Plan q;
 						q.engine = p.engine;
 						q.variant = p.variant;
@@ -805,7 +806,7 @@ struct EnvEngine : Engine {
 						q.par["ptext1"] = p.par["ptext" + std::to_string(idx)];
 						q.par["pfmt1"] = p.par["pfmt" + std::to_string(idx)];
 						RunResult rr = run_plan(q, Limits(), [&]() { return body_setters(q); });
-						st.add_probes(rr);
+						st.add_ref(rr);
 						ref = "crash";
 						for (auto &rl : split_lines_keep(rr.blob)) {
 							int rn;
@@ -815,6 +816,7 @@ struct EnvEngine : Engine {
 							if (sscanf(rl.c_str(), "%c %zu %d %599s", &rk, &ri, &rn, rrest) >= 3 && rk == 'P')
 								ref = rn > 0 ? rrest : "";
 						}
+						st.mix_value(0, ref);
 						if (refmemo.size() < 100000)
 							refmemo[key] = ref;
 					}
